@@ -10,6 +10,7 @@ import (
 	"io"
 	"runtime"
 	"strconv"
+	"strings"
 	"sync"
 	"time"
 
@@ -161,7 +162,17 @@ func (m *Manager) CreateTable(name string) (Table, error) {
 	return created, m.startTable(created.Name, created.ClusterID)
 }
 
+// validTableName tells whether a name can be used for a table. Table records live under keyPrefix
+// next to internal records (the id sequence, table leases): a name with a path separator could
+// address those, and the catalogue listing does not match it.
+func validTableName(name string) bool {
+	return name != "" && !strings.Contains(name, "/")
+}
+
 func (m *Manager) createTable(name string) (Table, error) {
+	if !validTableName(name) {
+		return Table{}, serrors.ErrInvalidTableName
+	}
 	storeName := storedTableName(name)
 	exists, err := m.store.Exists(storeName)
 	if err != nil {
@@ -191,6 +202,9 @@ func (m *Manager) createTable(name string) (Table, error) {
 func (m *Manager) DeleteTable(name string) error {
 	m.mtx.Lock()
 	defer m.mtx.Unlock()
+	if !validTableName(name) {
+		return serrors.ErrTableNotFound
+	}
 	storeName := storedTableName(name)
 	tab, err := m.store.Get(storeName)
 	if err != nil {
@@ -518,6 +532,9 @@ func (m *Manager) stopTable(clusterID uint64) error {
 }
 
 func (m *Manager) Restore(name string, reader io.Reader) error {
+	if !validTableName(name) {
+		return serrors.ErrInvalidTableName
+	}
 	tbl, version, err := m.getTableVersion(name)
 	if err != nil && !errors.Is(err, serrors.ErrTableNotFound) {
 		return err
